@@ -45,7 +45,8 @@ def gen_stream(rng, name, direction, nframes):
     return uid, frames, msgs
 
 
-DIRECTED = {'req': ['writeRegisters', 'writeCoils', 'readWrite', 'writeFileRecord', 'readFileRecord'],
+DIRECTED = {'req': ['writeRegisters', 'writeCoils', 'readWrite', 'writeFileRecord', 'readFileRecord', 'readExceptionStatus', 'writeRegister',
+                    'getCommEventCounter', 'readHolding', 'getCommEventLog', 'readCoils', 'reportSlaveId'],   # the shortest requests too, one of them last
             'resp': ['readDeviceInfo', 'readHolding', 'readCoils', 'getCommEventLog', 'reportSlaveId', 'writeFileRecord', 'exception']}
 
 
